@@ -104,3 +104,24 @@ func badMutualA(n int) int {
 	}
 	return badMutualB(n - 1)
 }
+
+func badSelectTwo(b *box) int {
+	select {
+	case b.q <- 1:
+		return 1
+	case <-b.out:
+		return 2
+	}
+}
+
+func badRecvValue(b *box) int { return <-b.q }
+
+func badChanOfPointers(c chan *ctr) int { return len(c) }
+
+func badNamedResult() (n int) {
+	n = 3
+
+	return
+}
+
+func badClose(b *box) { close(b.done) }
